@@ -268,7 +268,10 @@ Definition set_gen_expr_old (name s : bytes) : gen_result :=
        end.
 
 (** ** reAutoinc =
-    (?i)(?:[(,]\s{0,})[<dq>`]?(\w+)[<dq>`]?\s+INTEGER\s+[^,]*PRIMARY\s+KEY\s+[^,]*AUTOINCREMENT *)
+    (?i)(?:[(,]\s{0,})[<dq>`]?(\w+)[<dq>`]?\s+INTEGER\s+[^,]*PRIMARY\s+KEY(?:\s+(?:ASC|DESC))?(?:\s+ON\s+CONFLICT\s+\w+)?\s+AUTOINCREMENT
+    (since the fix "sqlite inspection recognises AUTOINCREMENT only where the grammar allows it": between
+    PRIMARY KEY and AUTOINCREMENT there is only an optional ASC/DESC and an optional conflict clause; before it
+    the tail was PRIMARY\s+KEY\s+[^,]*AUTOINCREMENT and matched the letters later in the column definition) *)
 (** [[^,]*P]: the literal [p] (which has no comma) occurs, case-folded, at a
     position of [s] before which there is no comma *)
 Fixpoint has_ci (p s : bytes) : bool :=
@@ -279,21 +282,61 @@ Fixpoint has_ci (p s : bytes) : bool :=
             | c :: s' => if N.eqb c ch_comma then false else has_ci p s'
             end
   end.
-(** [PRIMARY\s+KEY\s+[^,]*AUTOINCREMENT] at the head of [s] *)
+(** [\s+AUTOINCREMENT] at the head *)
+Definition K_ASC : bytes := [65;83;67].
+Definition K_DESC : bytes := [68;69;83;67].
+Definition K_ON_ : bytes := [79;78].
+Definition K_CONFLICT : bytes := [67;79;78;70;76;73;67;84].
+Definition ends_autoinc (s : bytes) : bool :=
+  match plus_space s with
+  | Some r => match lit_ci K_AUTOINCREMENT r with Some _ => true | None => false end
+  | None => false
+  end.
+(** [\s+ON\s+CONFLICT\s+\w+] at the head: the rest after it *)
+Definition opt_conflict (s : bytes) : option bytes :=
+  match plus_space s with
+  | Some r1 =>
+    match lit_ci K_ON_ r1 with
+    | Some r2 =>
+      match plus_space r2 with
+      | Some r3 =>
+        match lit_ci K_CONFLICT r3 with
+        | Some r4 =>
+          match plus_space r4 with
+          | Some r5 => match word1 r5 with Some (_, r6) => Some r6 | None => None end
+          | None => None
+          end
+        | None => None
+        end
+      | None => None
+      end
+    | None => None
+    end
+  | None => None
+  end.
+(** [\s+(?:ASC|DESC)] at the head: the rest after it *)
+Definition opt_order (s : bytes) : option bytes :=
+  match plus_space s with
+  | Some r1 => match lit_ci K_ASC r1 with Some r2 => Some r2 | None => lit_ci K_DESC r1 end
+  | None => None
+  end.
+Definition tail_from (a : bytes) : bool :=
+  ends_autoinc a || match opt_conflict a with Some b => ends_autoinc b | None => false end.
+(** [PRIMARY\s+KEY(?:\s+(?:ASC|DESC))?(?:\s+ON\s+CONFLICT\s+\w+)?\s+AUTOINCREMENT] at the head of [s] *)
 Definition pk_autoinc_at (s : bytes) : bool :=
   match lit_ci K_PRIMARY s with
   | Some r1 =>
     match plus_space r1 with
     | Some r2 =>
       match lit_ci K_KEY r2 with
-      | Some (c :: r3) => is_space c && has_ci K_AUTOINCREMENT r3
-      | _ => false
+      | Some r3 => tail_from r3 || match opt_order r3 with Some a => tail_from a | None => false end
+      | None => false
       end
     | None => false
     end
   | None => false
   end.
-(** [[^,]*PRIMARY\s+KEY\s+[^,]*AUTOINCREMENT] *)
+(** [[^,]*PRIMARY\s+KEY...AUTOINCREMENT] *)
 Fixpoint has_pk_autoinc (s : bytes) : bool :=
   pk_autoinc_at s ||
   match s with
@@ -328,12 +371,76 @@ Fixpoint find_autoinc (s : bytes) : option bytes :=
   | Some x => Some x
   | None => match s with [] => None | _ :: s' => find_autoinc s' end
   end.
+(** ** reAutoinc before the fix (for the theorem about the old code) =
+    (?i)(?:[(,]\s{0,})[<dq>`]?(\w+)[<dq>`]?\s+INTEGER\s+[^,]*PRIMARY\s+KEY\s+[^,]*AUTOINCREMENT *)
+(** [PRIMARY\s+KEY\s+[^,]*AUTOINCREMENT] at the head of [s] *)
+Definition pk_autoinc_at_old (s : bytes) : bool :=
+  match lit_ci K_PRIMARY s with
+  | Some r1 =>
+    match plus_space r1 with
+    | Some r2 =>
+      match lit_ci K_KEY r2 with
+      | Some (c :: r3) => is_space c && has_ci K_AUTOINCREMENT r3
+      | _ => false
+      end
+    | None => false
+    end
+  | None => false
+  end.
+(** [[^,]*PRIMARY\s+KEY\s+[^,]*AUTOINCREMENT] *)
+Fixpoint has_pk_autoinc_old (s : bytes) : bool :=
+  pk_autoinc_at_old s ||
+  match s with
+  | [] => false
+  | c :: s' => if N.eqb c ch_comma then false else has_pk_autoinc_old s'
+  end.
+Definition match_autoinc_at_old (s : bytes) : option bytes :=
+  match s with
+  | c :: r =>
+      if open_ch c then
+        match word1 (opt_quote (skip_while is_space r)) with
+        | Some (w, r3) =>
+          match plus_space (opt_quote r3) with
+          | Some r5 =>
+            match lit_ci K_INTEGER r5 with
+            | Some r6 =>
+              match r6 with
+              | c6 :: r7 => if is_space c6 && has_pk_autoinc_old r7 then Some w else None
+              | [] => None
+              end
+            | None => None
+            end
+          | None => None
+          end
+        | None => None
+        end
+      else None
+  | [] => None
+  end.
+Fixpoint find_autoinc_old (s : bytes) : option bytes :=
+  match match_autoinc_at_old s with
+  | Some x => Some x
+  | None => match s with [] => None | _ :: s' => find_autoinc_old s' end
+  end.
 Inductive autoinc_result := AutoNone | AutoErrNoColumn | AutoErrUnexpectedPK | AutoOk (c : bytes).
 (** [autoinc(t)]: [cols] the column names, [pk] the names of the primary-key parts *)
 Definition autoinc (s : bytes) (cols pk : list bytes) : autoinc_result :=
   match pk with
   | [p] =>
       match find_autoinc s with
+      | None => AutoNone
+      | Some w =>
+          if existsb (bytes_eqb w) cols then
+            (if bytes_eqb w p then AutoOk w else AutoErrUnexpectedPK)
+          else AutoErrNoColumn
+      end
+  | _ => AutoNone
+  end.
+
+Definition autoinc_old (s : bytes) (cols pk : list bytes) : autoinc_result :=
+  match pk with
+  | [p] =>
+      match find_autoinc_old s with
       | None => AutoNone
       | Some w =>
           if existsb (bytes_eqb w) cols then
